@@ -128,9 +128,7 @@ def returned_nodes(body, eb=None):
             if isinstance(d[3]["p"], int):
                 out.append((d[1], eb.rvalue(d[3]["rv"])))
         else:
-            t = d[2]
-            nm = callee_name(t) or "<indirect>"
-            out.append((d[1], ("call", nm, tuple(eb.operand(a) for a in t["args"]), d[1])))
+            out.append((d[1], eb.call_node(d[2], d[1])))
     return out
 
 
@@ -325,6 +323,17 @@ class Scope:
                         elem = mkproj(strip(recv), ("@Ok", ".0"))
                         via = (sc, None)
                 out.append((b, t, Scope(self.prog, self.prog.fns[cid], env, elem, self, via, elem_arg)))
+        # closures bound to a local (`let f = |x| ..; f(a)`) are not arguments of any call: they are scopes of this body all the same
+        passed = {ch.fn.id for (_, _, ch) in out}
+        for b, i, s in self.body.statements():
+            if s["s"] == "assign" and s["rv"]["r"] == "agg" and s["rv"].get("closure"):
+                cid = s["rv"]["closure"]
+                if cid in passed or cid not in self.prog.fns:
+                    continue
+                an = strip(self.eb.rvalue(s["rv"]))
+                env = {i2: self._rw(o) for i2, o in closure_env(an).items()}
+                passed.add(cid)
+                out.append((b, None, Scope(self.prog, self.prog.fns[cid], env, None, self, ("local", None), 2)))
         return out
 
     def all_scopes(self):
@@ -419,3 +428,40 @@ def value_prov(prog, node, depth=0):
     if n[0] == "k":
         return {"const:" + n[1]}
     return {"?" + show(n)[:40]}
+
+
+# --------------------------------------------------------------------------- inlining of small helper functions
+
+PROG = None      # set by run.py: the Program the rules run on (needed to resolve helper calls inside expression trees)
+
+
+def inline_helper(prog, n, depth=0):
+    """if call node n is a call of a straight-line workspace function (no branches, no loops, one returned expression), return that
+    expression with the parameters bound to the call's arguments; else None.  A helper that merely names a sub-expression
+    (`space.volume_net(..)` = area * height) is thereby transparent to the formula and chain comparisons, while a helper that
+    adds a condition keeps its own name and is compared as an unknown."""
+    prog = prog or PROG
+    if prog is None or depth > 3 or n[0] != "call":
+        return None
+    ids = prog.callee_index().get(n[1], ())
+    if len(ids) != 1:
+        return None
+    fn = prog.fns[next(iter(ids))]
+    body = fn.body
+    if fn.kind not in ("fn", "assocfn") or body.argc != len(n[2]) or body.n > 40:
+        return None
+    for b in range(body.n):
+        if body.is_cleanup(b):
+            continue
+        if body.blocks[b]["term"]["t"] == "switch":
+            return None
+    if body.loops():
+        return None
+    rns = returned_nodes(body)
+    if len(rns) != 1:
+        return None
+    sc = Scope(prog, fn, argmap={i + 1: a for i, a in enumerate(n[2])})
+    r = sc._rw(rns[0][1])
+    if any(x[0] in ("var",) and x[1] <= body.argc for x in walk(r)):
+        return None
+    return r
